@@ -48,7 +48,8 @@ UNITS = [{
         'impl Map::new': {'props': G, 'pre_rewrites': ['assert_eq_unreached'], 'requires': ['size % 4 == 0'], 'body_start': 'proof { lemma_zero_bits(0); lemma_zero_bits(1); lemma_zero_bits(2); lemma_zero_bits(3); }',
                           'ensures': [(G, 'r.wf() && r.cap() == size && forall|i: int| 0 <= i < size ==> r.is_free(i)')]},
         'impl Map::resize': {'props': G, 'pre_rewrites': ['assert_eq_unreached'],
-                             'body_end': 'proof { assert forall|i: int| 0 <= i < self.size implies self.state_bits(i) <= 2 by { if i < old(self).size { assert(self.map@[i / 4] == old(self).map@[i / 4]); assert(old(self).state_bits(i) <= 2); } else { assert(self.map@[i / 4] == 0u8); } } }', 'body_start': 'proof { lemma_zero_bits(0); lemma_zero_bits(1); lemma_zero_bits(2); lemma_zero_bits(3); }', 'requires': ['old(self).wf()', 'size % 4 == 0', 'size >= old(self).cap()'],
+                             # the hint only MENTIONS the terms the solver needs (no inner assert that could fail in place of a postcondition)
+                             'body_end': 'proof { assert forall|i: int| 0 <= i < self.size implies self.state_bits(i) <= 2 by { let a = self.map@[i / 4]; if i < old(self).size { let b = old(self).map@[i / 4]; let c = old(self).state_bits(i); } } }', 'body_start': 'proof { lemma_zero_bits(0); lemma_zero_bits(1); lemma_zero_bits(2); lemma_zero_bits(3); }', 'requires': ['old(self).wf()', 'size % 4 == 0', 'size >= old(self).cap()'],
                              'ensures': [(G, 'final(self).wf() && final(self).cap() == size'),
                                          (G, 'forall|i: int| 0 <= i < old(self).cap() ==> final(self).state_bits(i) == old(self).state_bits(i)'),
                                          (G, 'forall|i: int| old(self).cap() <= i < size ==> final(self).is_free(i)')]},
